@@ -262,6 +262,8 @@ func runUnit(u unit) unitResult {
 		runHistories(u, c)
 	case 2:
 		runImage(u, c)
+	case 3:
+		runLiveUnit(u, c)
 	default:
 		fatal("unit phase %d", u.Phase)
 	}
@@ -321,6 +323,7 @@ type symbol struct {
 	sync    bool
 	tick    bool
 	restart bool
+	lv      int // part 3 (live readers) operation code, see live.go
 }
 
 func wsym(k kind, sync bool) symbol {
